@@ -72,6 +72,17 @@ type codecCase struct {
 	From  *caseFields `json:"from"` // != nil: decode WFrom, then set the fields of Case through the setters
 	WFrom []seg       `json:"wfrom"`
 	Auto  bool        `json:"auto"` // the packet identifier is left to the library
+	// != nil: the filter list of a SUBSCRIBE / UNSUBSCRIBE (Base, wire form WBase) is edited with AddTopic / RemoveTopic
+	Edit  *editCase `json:"edit"`
+	Base  [][]int   `json:"base"`
+	WBase []seg     `json:"wbase"`
+	Final [][]int   `json:"final"`
+}
+
+type editCase struct {
+	Ty  string          `json:"ty"`
+	Dec bool            `json:"dec"`
+	Ops [][]interface{} `json:"ops"`
 }
 
 const fillAlpha = "abcdefghijklmnopqrstuvwxyz0123456789"
@@ -353,6 +364,10 @@ func codecCheck(c *codecCase, res *Result) {
 	}()
 	if len(wire) != c.Len {
 		fatal("harness: expansion of %s has %d bytes, specification says %d", desc(), len(wire), c.Len)
+	}
+	if c.Edit != nil {
+		editCheck(c, wire, res)
+		return
 	}
 	if c.Pad > 0 {
 		padCheck(c, wire, res, kind())
@@ -1056,4 +1071,98 @@ func init() {
 	commands["codecids"] = cmdCodecIDs
 	commands["decodeparse"] = cmdDecodeParse
 	commands["decodemut"] = cmdDecodeMut
+}
+
+// editCheck: AddTopic / RemoveTopic at any position of the filter list of a SUBSCRIBE / UNSUBSCRIBE (decoded, or built
+// through the API), then Len / Encode against the wire form of the specification's list, and the accessors against the list
+func editCheck(c *codecCase, wire []byte, res *Result) {
+	e := c.Edit
+	rep := map[string]interface{}{"type": e.Ty, "decoded_first": e.Dec, "initial_list": c.Base, "operations": e.Ops, "expected_list": c.Final}
+	fail := func(what string) {
+		res.mismatch(Mismatch{What: e.Ty + " edited with AddTopic/RemoveTopic: " + what, Tag: "C03", Replay: rep})
+	}
+	defer func() {
+		if r := recover(); r != nil {
+			fail(fmt.Sprintf("panic: %v", r))
+		}
+	}()
+	res.Steps++
+	filter := func(j int) []byte { return fillBytes(2, 10+j) }
+	msg, _ := typeByName[e.Ty].New()
+	sub, _ := msg.(*message.SubscribeMessage)
+	uns, _ := msg.(*message.UnsubscribeMessage)
+	add := func(j, q int) {
+		if sub != nil {
+			sub.AddTopic(filter(j), byte(q))
+		} else {
+			uns.AddTopic(filter(j))
+		}
+	}
+	if e.Dec {
+		wb, _ := expand(c.WBase)
+		in := append(append([]byte(nil), wb...), 0xc0, 0x00)
+		if n, err := msg.Decode(in); err != nil || n != len(wb) {
+			fail(fmt.Sprintf("Decode of the reference bytes: n=%d err=%v", n, err))
+			return
+		}
+	} else {
+		if sub != nil {
+			sub.SetPacketID(7)
+		} else {
+			uns.SetPacketID(7)
+		}
+		for _, b := range c.Base {
+			add(b[0], b[1])
+		}
+	}
+	var calls []string
+	for _, op := range e.Ops {
+		kind, _ := op[0].(string)
+		j := int(op[1].(float64))
+		q := int(op[2].(float64))
+		if kind == "rm" {
+			if sub != nil {
+				sub.RemoveTopic(filter(j))
+			} else {
+				uns.RemoveTopic(filter(j))
+			}
+			calls = append(calls, fmt.Sprintf("RemoveTopic(#%d)", j))
+		} else {
+			add(j, q)
+			calls = append(calls, fmt.Sprintf("AddTopic(#%d, %d)", j, q))
+		}
+	}
+	how := strings.Join(calls, ", ")
+	if l := msg.Len(); l != len(wire) {
+		fail(fmt.Sprintf("after %s, Len() = %d, the packet with the resulting list has %d bytes", how, l, len(wire)))
+		return
+	}
+	buf := make([]byte, len(wire))
+	n, err := msg.Encode(buf)
+	if err != nil || n != len(wire) {
+		fail(fmt.Sprintf("after %s, Encode returns n=%d err=%v, the packet with the resulting list has %d bytes", how, n, err, len(wire)))
+		return
+	}
+	if !bytes.Equal(buf, wire) {
+		fail(fmt.Sprintf("after %s, Encode wrote % x, the wire form of the resulting list is % x", how, buf, wire))
+		return
+	}
+	// the accessors describe the same list
+	var topics [][]byte
+	var qos []byte
+	if sub != nil {
+		topics, qos = sub.Topics(), sub.Qos()
+	} else {
+		topics = uns.Topics()
+	}
+	if len(topics) != len(c.Final) || (sub != nil && len(qos) != len(c.Final)) {
+		fail(fmt.Sprintf("after %s, Topics() has %d entries, Qos() %d, the resulting list %d", how, len(topics), len(qos), len(c.Final)))
+		return
+	}
+	for i, f := range c.Final {
+		if !bytes.Equal(topics[i], filter(f[0])) || (sub != nil && int(qos[i]) != f[1]) {
+			fail(fmt.Sprintf("after %s, entry %d of Topics()/Qos() is not entry %d of the resulting list", how, i, i))
+			return
+		}
+	}
 }
